@@ -121,7 +121,7 @@ func cmdCheck(args []string) {
 	var notes, unsupp, unbound []string
 	funcsUnder := []string{}
 	for _, name := range cfg.Functions {
-		if eng.Func(name) == nil {
+		if eng.Func(strings.SplitN(name, "#", 2)[0]) == nil {
 			unbound = append(unbound, name)
 			continue
 		}
